@@ -133,6 +133,29 @@ class Spec:
                 self.traces[key] = {"trace": trace, "sampled": True, "cancelled": False, "commit_pos": None, "start_pos": pos, "thread": t}
                 self.touch(t)
             self.new_span(v, name, [{"trace": trace, "parent": ("remote", span), "root": key, "sampled": sampled}], key)
+        elif op in ("rootFrom", "rootFromLocal"):
+            # a root created from an extracted context: it continues that trace under that span (C11)
+            v, name = a[0], unhx(a[1])
+            if op == "rootFrom":
+                src = self.spans[a[2]]
+                it0 = src["items"][0] if src is not None and src["items"] else None
+                parent = ("span", src["name"]) if it0 is not None else None
+            else:
+                tok = self.cur_token(t)
+                it0 = tok[0] if tok else None
+                parent = it0["parent"] if it0 is not None else None
+            if it0 is None:
+                raise ValueError("no context to create the root from")
+            if not self.reporter:
+                self.spans[v] = None
+                return
+            sampled = it0["sampled"]
+            key = "c%d" % self.nroots if sampled else "U"
+            if sampled:
+                self.nroots += 1
+                self.traces[key] = {"trace": it0["trace"], "sampled": True, "cancelled": False, "commit_pos": None, "start_pos": pos, "thread": t}
+                self.touch(t)
+            self.new_span(v, name, [{"trace": it0["trace"], "parent": parent, "root": key, "sampled": sampled}], key)
         elif op == "child1":
             v, name, p = a[0], unhx(a[1]), a[2]
             ps = self.spans[p]
@@ -441,6 +464,10 @@ class Gen:
                       late_reporter=rng.chance(1, 12), no_reporter=rng.chance(1, 25), adapters=False, late_children=rng.chance(1, 3))
         if knobs:
             self.k.update(knobs)
+        if self.k.get("remote_children"):
+            # roots created from extracted contexts share a trace id with another root; multi-parent spans over such
+            # roots would have several copies with equal (name, trace, parent), which the oracles cannot tell apart
+            self.k["multi"] = False
         self.s = Spec()
         self.lines = []
         self.n = 0
@@ -477,7 +504,7 @@ class Gen:
     def closure(self):
         re = 0
         if self.mode == "wild" and self.r.chance(1, 3):
-            re = 1 + self.r.below(4)
+            re = 1 + self.r.below(5)
         return "%d:%s" % (re, wprops(self.kvs()))
 
     def live_threads(self):
@@ -502,6 +529,16 @@ class Gen:
         else:
             trace, span = ctx
         self.emit(t, "root %s %s %x %x %d" % (v, hx(name), trace, span, 1 if sampled else 0))
+        return v
+
+    def op_root_from(self, t, p):
+        v = self.var()
+        self.emit(t, "rootFrom %s %s %s %s" % (v, hx(self.name("r")), p, self.r.pick(["direct", "tp"])))
+        return v
+
+    def op_root_from_local(self, t):
+        v = self.var()
+        self.emit(t, "rootFromLocal %s %s %s" % (v, hx(self.name("r")), self.r.pick(["direct", "tp"])))
         return v
 
     def op_child1(self, t, p):
@@ -704,6 +741,9 @@ class Gen:
         if not self.k["no_reporter"] and not self.k["late_reporter"]:
             self.op_set_reporter()
 
+    def step_blocks_roots(self, t):
+        return False
+
     def begin_step(self):
         self.emit(0, "cycBegin")
         self.step = 3 * self.registered + 1      # first pass: rx / empty per receiver; second pass: rx2 per receiver; then the report
@@ -812,6 +852,11 @@ class Gen:
                     choices += [("addProps", 2), ("addEvent", 2)]
                 if self.k["multi"] and len(spans) >= 2:
                     choices.append(("childN", 3))
+                if self.k.get("remote_children") and not self.step_blocks_roots(t):
+                    if any(s.spans[v] is not None and s.spans[v]["items"] for v in spans):
+                        choices.append(("rootFrom", 3))
+                    if s.cur_token(t):
+                        choices.append(("rootFromLocal", 2))
                 roots = [v for v in rec if s.spans[v]["root_key"]]
                 if roots and s.cancelable and r.chance(1, 3):
                     choices.append(("cancel", 2))
@@ -903,6 +948,10 @@ class Gen:
                 if cand:
                     self.probe(t)
                     self.op_scope(t, r.pick(cand))
+            elif c == "rootFrom":
+                self.op_root_from(t, r.pick([v for v in spans if s.spans[v] is not None and s.spans[v]["items"]]))
+            elif c == "rootFromLocal":
+                self.op_root_from_local(t)
             elif c == "collector":
                 self.probe(t)
                 self.op_collector(t)
